@@ -46,6 +46,8 @@ pub enum TokKind {
     Match(String),
     Open(Bracket),
     Close(Bracket),
+    /// expectation only (never printed): a comment with this content must precede the next token
+    CommentMarker(String),
 }
 
 #[derive(Clone, Debug, PartialEq, Serialize, Deserialize)]
@@ -588,6 +590,10 @@ pub enum Node {
     Import(Import),
     /// @charset "x"; @namespace a url(x); @layer a, b; unknown statement at-rules
     Statement { name: String, prelude: Vec<VTok> },
+    /// expectation only: `[name="value"],[name2="value2"] { decls }` (the converted form of a `:host` rule)
+    AttrRule { attrs: Vec<(String, String)>, decls: Vec<Decl> },
+    /// expectation only: what an `@import` becomes when an import sign is configured
+    ImportPlaceholder { layer: Option<Option<String>>, supports: Option<(String, Vec<VTok>)>, media: Option<MediaCond>, comment_path: String },
 }
 
 #[derive(Clone, Debug, PartialEq, Serialize, Deserialize)]
@@ -798,10 +804,9 @@ impl Node {
                 match &im.form {
                     ImportForm::Str(s) => e.decoy(TokKind::Str(s.clone())),
                     ImportForm::UrlFn(s) => {
+                        // nothing but the string inside `url(`: a comment there would make it an unquoted (bad) url
                         e.open(Bracket::Func("url".into()));
-                        e.slot(Slot::Opt);
                         e.decoy(TokKind::Str(s.clone()));
-                        e.slot(Slot::Opt);
                         e.close(Bracket::Func("url".into()));
                     }
                     ImportForm::Url(s) => e.decoy(TokKind::Url(s.clone())),
@@ -846,6 +851,73 @@ impl Node {
                 }
                 e.slot(Slot::Opt);
                 e.tok(TokKind::Semicolon);
+            }
+            Node::AttrRule { attrs, decls } => {
+                for (i, (n, v)) in attrs.iter().enumerate() {
+                    if i > 0 {
+                        e.slot(Slot::Opt);
+                        e.tok(TokKind::Comma);
+                        e.slot(Slot::Opt);
+                    }
+                    e.open(Bracket::Square);
+                    e.slot(Slot::Opt);
+                    e.decoy(TokKind::Ident(n.clone()));
+                    e.slot(Slot::Opt);
+                    e.delim('=');
+                    e.slot(Slot::Opt);
+                    e.decoy(TokKind::Str(v.clone()));
+                    e.slot(Slot::Opt);
+                    e.close(Bracket::Square);
+                }
+                e.slot(Slot::Opt);
+                e.open(Bracket::Curly);
+                emit_decls(decls, e);
+                e.close(Bracket::Curly);
+            }
+            Node::ImportPlaceholder { layer, supports, media, comment_path } => {
+                let mut closes = 0;
+                if let Some(l) = layer {
+                    e.tok(TokKind::AtKeyword("layer".into()));
+                    if let Some(n) = l {
+                        e.slot(Slot::Sep);
+                        e.decoy(TokKind::Ident(n.clone()));
+                    }
+                    e.slot(Slot::Opt);
+                    e.open(Bracket::Curly);
+                    closes += 1;
+                }
+                if let Some((p, v)) = supports {
+                    e.slot(Slot::Opt);
+                    e.tok(TokKind::AtKeyword("supports".into()));
+                    e.slot(Slot::Opt);
+                    e.open(Bracket::Paren);
+                    e.slot(Slot::Opt);
+                    e.decoy(TokKind::Ident(p.clone()));
+                    e.slot(Slot::Opt);
+                    e.tok(TokKind::Colon);
+                    e.slot(Slot::Opt);
+                    emit_values(v, e);
+                    e.slot(Slot::Opt);
+                    e.close(Bracket::Paren);
+                    e.slot(Slot::Opt);
+                    e.open(Bracket::Curly);
+                    closes += 1;
+                }
+                if let Some(m) = media {
+                    e.slot(Slot::Opt);
+                    e.tok(TokKind::AtKeyword("media".into()));
+                    e.slot(Slot::Sep);
+                    m.emit(e);
+                    e.slot(Slot::Opt);
+                    e.open(Bracket::Curly);
+                    closes += 1;
+                }
+                e.slot(Slot::Opt);
+                e.tok(TokKind::CommentMarker(comment_path.clone()));
+                for _ in 0..closes {
+                    e.slot(Slot::Opt);
+                    e.close(Bracket::Curly);
+                }
             }
         }
     }
@@ -1053,6 +1125,7 @@ pub fn print(sheet: &Sheet, style: u64) -> Printed {
                         Bracket::Square => out.push(']'),
                         Bracket::Curly => out.push('}'),
                     },
+                    TokKind::CommentMarker(_) => {}
                 }
             }
         }
